@@ -24,6 +24,7 @@ import CaddyModel.C15.Lemmas
 import CaddyModel.C15.Witness
 import CaddyModel.Gen.Encode
 import CaddyModel.Gen.ProxyFlush
+import CaddyModel.Gen.DirectiveOrder
 
 namespace CaddyModel.C15
 
@@ -748,6 +749,26 @@ theorem constants_match_source :
 theorem encoder_lifecycle_matches_source :
     lifecycleInit = CaddyModel.Gen.encodeEncoderLifecycleInit ∧
       lifecycleClose = CaddyModel.Gen.encodeEncoderLifecycleClose := by decide
+
+/-- position of a directive in the Caddyfile's default handler order -/
+def dirIndex (d : String) : Option Nat := CaddyModel.Gen.defaultDirectiveOrder.findIdx? (· == d)
+
+def dirBefore (a b : String) : Bool :=
+  match dirIndex a, dirIndex b with
+  | some i, some j => decide (i < j)
+  | _, _ => false
+
+/-- **where `encode` sits in a Caddyfile site**: after `header` (whose non-deferred response edits — e.g.
+    `Cache-Control: no-transform` — are therefore in the header map when `init` decides, and whose deferred ones
+    run in ITS WriteHeader, i.e. after the decision), and before every handler whose output it is meant to encode —
+    the buffering middlewares `intercept` / `templates` (so that they buffer plain bytes: the `rr` op and
+    `buffering_middleware_is_transparent` are about exactly this nesting), `respond`, `reverse_proxy`,
+    `php_fastcgi`, `file_server`. A reordering in httpcaddyfile/directives.go breaks this obligation. -/
+theorem encode_directive_position_matches_source :
+    dirBefore "header" "encode" = true ∧ dirBefore "encode" "intercept" = true ∧
+    dirBefore "encode" "templates" = true ∧ dirBefore "encode" "respond" = true ∧
+    dirBefore "encode" "reverse_proxy" = true ∧ dirBefore "encode" "php_fastcgi" = true ∧
+    dirBefore "encode" "file_server" = true := by decide
 
 /-- the formats used when a directive names none are those of `UnmarshalCaddyfile` -/
 theorem caddyfile_defaults_match_source :
